@@ -319,7 +319,7 @@ class Sys:
         self.leaks = 0
 
     def initial(self):
-        w = SWorld(self.alpha.nv, 0)
+        w = SWorld(self.alpha.nv, 0, twin=getattr(self.alpha, "twin", False))
         laws = UniverseLaws(edge_whitelist={Vertex: {Vertex: DirectedEdge}})
         w.u = [Universe(laws=laws, attributes={"i": 100})]
         if not self.alpha.membership:
